@@ -34,3 +34,4 @@ def check(ctx, prog):
     kinds.rule_count_kind(ctx, prog)
     kinds.rule_index_kind(ctx, prog)  # a number is a variable index or a shared-domain index, not both
     bounds.rule_clamp_order(ctx, prog)  # an index variable outside the list must not be used as an index before the clamp (invalid (i, v) pairs accepted)
+    model.rule_split(ctx, prog)  # scope: the parts enumerated by the multiprocessing solver stay inside (and exactly cover) the declared domain
